@@ -62,8 +62,32 @@ func runC06(r *an.Run) {
 				return
 			}
 			bucket := an.CallTo("shachain.countTrailingZeros", nil)
-			loopDone := an.Cmp(an.Any(), an.GE, bucket, "i >= bucket (loop over lower buckets finished)")
+			loopDone := an.CmpX(an.LocalNamed("i"), an.GE, bucket, "i >= bucket (loop over lower buckets finished)")
 			guardedAll(o, f, append(writes, dec...), loopDone)
+			// the loop starts at bucket 0 and compares bucket i itself
+			ast.Inspect(f.Body, func(n ast.Node) bool {
+				fs, ok := n.(*ast.ForStmt)
+				if !ok {
+					return true
+				}
+				if init := an.Text(fs.Init); init != "i := uint8(0)" {
+					o.FailAt(f.ID+"#loop-start", f.Where(fs.Pos()), "the consistency loop starts with %s, expected bucket 0", init)
+				}
+				if post := an.Text(fs.Post); post != "i++" {
+					o.FailAt(f.ID+"#loop-step", f.Where(fs.Pos()), "the consistency loop advances by %s", post)
+				}
+				return true
+			})
+			for _, s := range f.Calls(an.CalleeIs("shachain.element.derive"), false) {
+				if a := f.ArgCanon(s); !reMatch(`^\$recv\.buckets\[\$v:uint8\]\.index$`, a[0]) {
+					o.FailAt(f.ID+"#derive-target", s.Where(), "the new element is derived to %s, expected the index of bucket i", a[0])
+				}
+			}
+			for _, s := range f.Calls(an.CalleeIs("shachain.element.isEqual"), false) {
+				if a := f.ArgCanon(s); !reMatch(`^&\$recv\.buckets\[\$v:uint8\]$`, a[0]) {
+					o.FailAt(f.ID+"#compare-target", s.Where(), "the derived element is compared with %s, expected bucket i", a[0])
+				}
+			}
 			// the loop increment is reached only through derive ok and isEqual true
 			for _, v := range f.Graph().V {
 				if st, ok := v.Node.(*ast.IncDecStmt); ok && st.Tok.String() == "++" {
